@@ -95,13 +95,16 @@ def apalache(res, wd):
         # mutant: terminator not counted in the fill count
         mdir = os.path.join(od, "mut")
         os.makedirs(mdir, exist_ok=True)
-        m = open(src).read().replace("written' = w0 + len + TLen", "written' = w0 + len")
-        open(os.path.join(mdir, "WriterInt.tla"), "w").write(m)
+        ops = open(os.path.join(SPEC, "WriterIntOps.tla")).read()
+        if "<<w0 + len + tlen," not in ops:
+            raise ToolError("WriterIntOps.tla: mutation point not found")
+        open(os.path.join(mdir, "WriterIntOps.tla"), "w").write(ops.replace("<<w0 + len + tlen,", "<<w0 + len,"))
+        open(os.path.join(mdir, "WriterInt.tla"), "w").write(open(src).read())
         rc, o = sh(["timeout", "600", "apalache-mc", "check"] + cmds[1] + ["--out-dir=" + os.path.join(od, "o9"), os.path.join(mdir, "WriterInt.tla")], check=False, timeout=700)
         out["mutant_refuted"] = "Found 1 error" in o or "violated" in o
         out["ok"] = out["discharged"] == 2 and out["mutant_refuted"]
         return out
-    r = tlc_cached("writerint-apalache", go, deps=["WriterInt.tla"])
+    r = tlc_cached("writerint-apalache", go, deps=["WriterInt.tla", "WriterIntOps.tla"])
     if not r["ok"]:
         # Apalache is optional tooling: its failure lowers the claim to "small constants", it is not a violation
         res.notes["apalache"] = "NOT discharged: %s" % r
@@ -282,6 +285,12 @@ def run(res, tier, seed, wd, replay=None):
     res.add_tlc({"distinct": v["states"], "generated": v["states"]})
     res.sample({"kind": "trace excerpt (real code)", "events": read_head(trB1, 12)})
     selftest_binding(res, trA, wd)
+    # the integer abstraction (Apalache: all capacities) against the code's own fill counters on the random histories
+    vi = validate_trace("WriterIntTrace", trB1, wd, tag="wint")
+    res.notes["writerint_trace"] = "%d (written, buffered) snapshots of the real writer equal the prediction of WriterInt.tla and satisfy its inductive invariant; divergences: %d" % (vi.get("checked", 0), len(vi.get("div", [])))
+    for d in vi.get("div", [])[:3]:
+        res.divergences.append({"what": "WriterInt.tla no longer mirrors the fill counters of the code", "line_model_code": d})
+    log("[B] WriterInt.tla vs the code's fill counters: %d snapshots checked, %d divergences" % (vi.get("checked", 0), len(vi.get("div", []))))
     log("[verdict] %d events of %d traces validated by TLC against WriterProp: %d flagged rules" % (nev, ntraces, len(v["bad"])))
 
 
